@@ -300,7 +300,19 @@ func Check(scen string, in In) ([]*mc.Violation, []Outcome) {
 		fps = append(fps, gen.PGPFingerprint(e))
 	}
 	var outs []Outcome
-	run := func() { outs = append(outs, LoadAndVerify(in.Deb, in.Ask, keyring)) }
+	// once an order with an unsound outcome has been found the remaining orders are not executed (the input is
+	// already a counterexample; on a sound tree every order is executed)
+	stopped := false
+	run := func() {
+		if stopped {
+			return
+		}
+		o := LoadAndVerify(in.Deb, in.Ask, keyring)
+		outs = append(outs, o)
+		if in.Orders && len(judge(scen, in, o, fps)) > 0 {
+			stopped = true
+		}
+	}
 	if in.Orders {
 		c14.ForEachMapOrder(run)
 	} else {
